@@ -15,9 +15,15 @@ type verifRedis struct {
 	fail    bool
 }
 
+// VerifLoading: nodes whose INFO currently reports loading:1 (a replica still loading its data set).
+var VerifLoading = map[string]bool{}
+
 func (f *verifRedis) Dial(address, passwd string, options ...redis.DialOption) (redis.Conn, error) {
 	if f.fail {
 		return nil, verifErrDial
+	}
+	if VerifLoading[address] {
+		return &verifRedisConn{&verifRedis{loading: true, link: f.link}}, nil
 	}
 	return &verifRedisConn{f}, nil
 }
@@ -317,6 +323,16 @@ var VerifTopos = []VerifTopo{
 // LATEST reply - whatever came before.
 func HarnessC14History(h, ntopo int) { verifC14History(h, ntopo, false) }
 
+// HarnessC14HistoryInfo: as HarnessC14History, and at each reply one of the two nodes that change role may
+// still be loading its data set according to INFO.
+func HarnessC14HistoryInfo(h, ntopo int) {
+	loadChoices = 3
+	verifC14History(h, ntopo, false)
+	loadChoices = 1
+}
+
+var loadChoices = 1
+
 // HarnessC14Bunched: as HarnessC14History, but probe replies may bunch up: after each reply the
 // solver decides whether the event loop's ticker gets to run before the next reply is processed.
 // The cluster then stays at the last description: the probe repeats it and the ticker runs; the
@@ -326,6 +342,23 @@ func HarnessC14Bunched(h, ntopo int) { verifC14History(h, ntopo, true) }
 func verifC14History(h, ntopo int, bunched bool) {
 	w, _ := verifClusterWorld()
 	cn := &EngineGlobal.ClusterNodes
+	VerifLoading = map[string]bool{}
+	// without: the description t minus a NEWLY DISCOVERED replica (one that is not part of the map in force)
+	// that is still loading its data set: it must not be used. Nodes already in force are not probed again.
+	inForce := map[string]bool{}
+	without := func(t VerifTopo, loading string) VerifTopo {
+		if _, isReplica := t.Slaves[loading]; !isReplica || inForce[loading] {
+			return t
+		}
+		u := t
+		u.Slaves = map[string]string{}
+		for a, m := range t.Slaves {
+			if a != loading {
+				u.Slaves[a] = m
+			}
+		}
+		return u
+	}
 	check := func(t VerifTopo) {
 		verifrt.Assert(!cn.serverChanged, "change_consumed_by_ticker")
 		for m, rng := range t.Masters {
@@ -362,9 +395,24 @@ func verifC14History(h, ntopo int, bunched bool) {
 	var last VerifTopo
 	for step := 0; step < h; step++ {
 		t := VerifTopos[verifrt.Choice("topology", ntopo)]
+		// at the time of this reply one of the two nodes that change role in these histories may still be
+		// loading its data set (INFO loading:1): as a replica it must then be left out
+		loading := []string{"", "10.0.0.4:7004", "10.0.0.1:7001"}[verifrt.Choice("node_still_loading", loadChoices)]
+		VerifLoading = map[string]bool{loading: true}
+		t = without(t, loading)
 		last = t
 		if err := cn.updateClusterNodes(t.Text); err != nil {
 			verifrt.Assert(false, "valid_text_accepted")
+		}
+		inForce = map[string]bool{}
+		for a := range t.Masters {
+			inForce[a] = true
+		}
+		for a := range t.Slaves {
+			inForce[a] = true
+		}
+		for _, a := range t.Others {
+			inForce[a] = true
 		}
 		if bunched && verifrt.Choice("ticker_runs_before_next_reply", 2) == 0 {
 			continue
@@ -388,6 +436,7 @@ func verifC14History(h, ntopo int, bunched bool) {
 }
 
 func init() {
+	verifrt.Register("HarnessC14HistoryInfo", func(p []int64) { HarnessC14HistoryInfo(int(p[0]), int(p[1])) })
 	verifrt.Register("HarnessC14History", func(p []int64) { HarnessC14History(int(p[0]), int(p[1])) })
 	verifrt.Register("HarnessC14Bunched", func(p []int64) { HarnessC14Bunched(int(p[0]), int(p[1])) })
 	verifrt.Register("HarnessC14Loop", func(p []int64) { HarnessC14Loop() })
